@@ -675,6 +675,9 @@ func (e *exprCtx) expr(v ssa.Value) string {
 		}
 		return x.Op.String() + e.expr(x.X)
 	case *ssa.BinOp:
+		if s, ok := e.msgConcat(x); ok {
+			return s
+		}
 		a, b := e.expr(x.X), e.expr(x.Y)
 		op := x.Op
 		switch op {
@@ -837,6 +840,11 @@ func (e *exprCtx) call(c *ssa.CallCommon) string {
 	n := calleeName(c)
 	if n == "" {
 		n = "dyn:" + e.expr(c.Value)
+	}
+	if n == "fmt.Sprintf" || n == "fmt.Errorf" {
+		if s, ok := e.msgSprintf(c, n); ok {
+			return s
+		}
 	}
 	// binary.BigEndian.AppendUintNN(b, v) is append(b, the bytes of v from the most significant down)
 	if strings.HasPrefix(n, "(encoding/binary.bigEndian).AppendUint") {
